@@ -2,7 +2,7 @@
 """save_seed.py <seed-id> <property> <seeded-name> <needs> <caught-by> : copy a confirmed seeded change from /tmp/seed-<id>/out into /verif/seeded/<name>/"""
 import sys, os, shutil, json, glob
 sid, prop, name, needs, caught = sys.argv[1:6]
-src=f"/tmp/seed-{sid}/out"; dst=f"/verif/seeded/{name}"
+src=(f"/tmp/seedout/{sid}" if os.path.isdir(f"/tmp/seedout/{sid}") else f"/tmp/seed-{sid}/out"); dst=f"/verif/seeded/{name}"
 os.makedirs(dst, exist_ok=True)
 for f in glob.glob(src+"/*"):
     b=os.path.basename(f)
